@@ -226,6 +226,15 @@ class Model:
                 raise AnalysisError(f"cannot parse {path}: {e}") from e
             self.modules[mod] = tree
             self.sources[mod] = src
+        # every later layer sees the canonical form only (sa/canon.py)
+        from . import canon
+        from .known_funcs import KNOWN_FUNCS
+
+        try:
+            self.canon_stats = canon.canonicalise(self.modules, set(KNOWN_FUNCS) | {f"{m}:{q}" for m in self.extra_sources for q in ()})
+        except RecursionError as e:  # pragma: no cover - defensive
+            raise AnalysisError(f"canonicalisation failed: {e}") from e
+        for tree in self.modules.values():
             for p in ast.walk(tree):
                 for c in ast.iter_child_nodes(p):
                     self._parents[id(c)] = p
